@@ -73,13 +73,18 @@ def one(name, baseline=True, extra_checks=()):
 
 
 if __name__ == "__main__":
-    names = [a for a in sys.argv[1:] if not a.startswith("--")] or sorted(n for n in os.listdir(os.path.join(HERE, "seeded")) if os.path.isdir(os.path.join(HERE, "seeded", n)))
+    args = list(sys.argv[1:])
+    half = None
+    if "--half" in args:
+        i = args.index("--half")
+        half = int(args[i + 1])
+        del args[i:i + 2]
+    names = [a for a in args if not a.startswith("--")] or sorted(n for n in os.listdir(os.path.join(HERE, "seeded")) if os.path.isdir(os.path.join(HERE, "seeded", n)))
     if "--skip-done" in sys.argv:
         names = [n for n in names if not os.path.exists(os.path.join(HERE, "seeded", n, "meta.json"))]
     names = [n for n in names if not n.startswith("own_")]
-    if "--half" in sys.argv:
-        k = int(sys.argv[sys.argv.index("--half") + 1])
-        names = names[k::2]
+    if half is not None:
+        names = names[half::2]
     for n in names:
         m = one(n)
         print(n, "confirmed=", m.get("confirmed"), "caught_by=", m.get("caught_by"), "baseline=", m.get("baseline_still_green"), flush=True)
